@@ -307,7 +307,40 @@ def run(rep, tier, clauses=("N-vjp", "N-jvp", "N-value"), only_complex=False):
                 rep.violation(f"NUM:{cl}", label, f"{label}: {detail}", replay=dict(module="contracts.rules_numeric", label=label.split("|")[0], clause=cl), witness=True)
 
 
+def run_scale(rep):
+    """linalg.norm is positively homogeneous of degree 1, so its gradient is invariant under x -> s*x (s > 0): checked at s = 1e-14 and 1e+14
+    (regular, merely badly scaled points) for both modes.  Catches clamping / epsilon tricks that are invisible at unit scale."""
+    warnings.simplefilter("ignore")
+    import autograd.numpy as anp
+    from autograd.core import make_jvp, make_vjp
+    x1 = onp.array([3.0, 4.0, 12.0])
+    X2 = onp.array([[1.0, 2.0, 2.0], [2.0, 3.0, 6.0]])
+    for label, f, x in (("norm vec", lambda z: anp.linalg.norm(z), x1), ("norm ord=2", lambda z: anp.linalg.norm(z, 2), x1), ("norm fro", lambda z: anp.linalg.norm(z, "fro"), X2),
+                        ("norm axis=1", lambda z: anp.linalg.norm(z, axis=1), X2), ("norm ord=3", lambda z: anp.linalg.norm(z, 3), x1)):
+        try:
+            g = onp.ones(onp.shape(f(x)))
+            ref = onp.asarray(make_vjp(f, x)[0](g))
+            tref = onp.asarray(make_jvp(f, x)(onp.ones_like(x))[1])
+            for sc in (1e-14, 1e14):
+                got = onp.asarray(make_vjp(f, sc * x)[0](g))
+                tg = onp.asarray(make_jvp(f, sc * x)(onp.ones_like(x))[1])
+                ok = onp.allclose(got, ref, rtol=1e-9, atol=0) and onp.allclose(tg, tref, rtol=1e-9, atol=0)
+                rep.bounded_case(("N-scale", label, sc))
+                if not ok:
+                    rep.violation("NUM:N-scale", f"{label}|scale={sc:g}", f"{label}: gradient at {sc:g}*x is {got.ravel()[:3]} (tangent {tg.ravel()[:2]}), at x it is {ref.ravel()[:3]} (tangent {tref.ravel()[:2]}) - "
+                                  "a degree-1 homogeneous function has a scale-invariant gradient", replay=dict(module="contracts.rules_numeric", scale_label=label), witness=True)
+        except Exception as e:
+            rep.note(f"N-scale {label}: {type(e).__name__}: {e}")
+
+
 def replay(spec):
+    if "scale_label" in spec:
+        from vlib.common import Report
+        r = Report("replay", "quick", "other", "replay")
+        r.known = {"findings": []}
+        run_scale(r)
+        bad = [v for v in r.violations if v["case"].startswith(spec["scale_label"])]
+        return (not bad), (bad[0]["what"] if bad else "holds"), "scale invariance of the gradient of a norm"
     for c in CASES:
         if c[0] == spec["label"]:
             bad = [(l, cl, d) for l, cl, ok, d in run_one(c) if not ok]
